@@ -839,7 +839,19 @@ fn wide_only(g: &mut G, c: &Ctx, depth: usize) -> Value {
             // enum-constrained newtype over a type without PartialEq (known
             // finding KF-009): branches are objects or references here
             let a = if !c.refs().is_empty() && g.chance(1, 3) { json!({"$ref": format!("{}{}", c.ref_prefix, g.pick(c.refs()))}) } else { object_schema(g, c, depth + 1) };
-            json!({"allOf": [a, object_schema(g, c, depth + 1)]})
+            let mut b = object_schema(g, c, depth + 1);
+            // both sides end up in one struct: names that differ only in case / separators would
+            // collide there (known finding KF-011) - dropped from the second side, and counted
+            let taken: Vec<String> = a.get("properties").and_then(|p| p.as_object()).map(|p| p.keys().map(|k| heck_snake(k)).collect()).unwrap_or_default();
+            let clash: Vec<String> = b.get("properties").and_then(|p| p.as_object()).map(|p| p.keys().filter(|k| taken.contains(&heck_snake(k)) && a["properties"].get(k.as_str()).is_none()).cloned().collect()).unwrap_or_default();
+            for k in &clash {
+                b["properties"].as_object_mut().unwrap().remove(k);
+                if let Some(r) = b.get_mut("required").and_then(|r| r.as_array_mut()) {
+                    r.retain(|x| x != &json!(k));
+                }
+            }
+            super::excluded("sanitised-name-collision", clash.len() as u64);
+            json!({"allOf": [a, b]})
         }
         6 => json!({"oneOf": not_both_null(schema(g, c, depth + 1), schema(g, c, depth + 1))}),
         _ => json!({"enum": [g.pick(ENUM_VALUES), g.range(0, 5), null]}),
@@ -882,6 +894,10 @@ pub fn document(g: &mut G, cfg: &Cfg) -> Value {
         defs.insert(name.clone(), s);
     }
     break_alias_cycles(&mut defs);
+    if cfg.wide {
+        let n = drop_allof_name_collisions(&mut defs);
+        super::excluded("sanitised-name-collision", n);
+    }
     let mut doc = Map::new();
     doc.insert("$schema".into(), json!("http://json-schema.org/draft-07/schema#"));
     doc.insert("definitions".into(), Value::Object(defs));
@@ -908,6 +924,59 @@ pub fn document(g: &mut G, cfg: &Cfg) -> Value {
         }
     }
     Value::Object(doc)
+}
+
+/// The members of an allOf end up in one struct; property names of different members that
+/// sanitise to the same identifier (`kind` / `Kind`) collide there (known finding KF-011).
+/// Later members lose such properties; references are looked through one level.
+fn drop_allof_name_collisions(defs: &mut Map<String, Value>) -> u64 {
+    let snapshot = defs.clone();
+    let names_of = |m: &Value| -> Vec<String> {
+        let target = match m.get("$ref").and_then(|r| r.as_str()).and_then(|r| r.strip_prefix("#/definitions/")) {
+            Some(n) => snapshot.get(n).cloned().unwrap_or(Value::Null),
+            None => m.clone(),
+        };
+        let mut v: Vec<String> = target.get("properties").and_then(|p| p.as_object()).map(|p| p.keys().cloned().collect()).unwrap_or_default();
+        v.extend(target.get("required").and_then(|r| r.as_array()).map(|r| r.iter().filter_map(|x| x.as_str().map(|s| s.to_string())).collect::<Vec<_>>()).unwrap_or_default());
+        v
+    };
+    fn walk(v: &mut Value, names_of: &dyn Fn(&Value) -> Vec<String>, n: &mut u64) {
+        match v {
+            Value::Object(o) => {
+                if let Some(Value::Array(members)) = o.get_mut("allOf") {
+                    let mut seen: Vec<(String, String)> = vec![]; // (identifier, name)
+                    for m in members.iter_mut() {
+                        let mine = names_of(m);
+                        let clash: Vec<String> = mine.iter().filter(|k| seen.iter().any(|(id, name)| id == &heck_snake(k) && name != *k)).cloned().collect();
+                        if m.get("$ref").is_none() {
+                            for k in &clash {
+                                if let Some(p) = m.get_mut("properties").and_then(|p| p.as_object_mut()) {
+                                    p.remove(k);
+                                }
+                                if let Some(r) = m.get_mut("required").and_then(|r| r.as_array_mut()) {
+                                    r.retain(|x| x.as_str() != Some(k.as_str()));
+                                }
+                                *n += 1;
+                            }
+                        }
+                        for k in names_of(m) {
+                            seen.push((heck_snake(&k), k));
+                        }
+                    }
+                }
+                for (_, c) in o.iter_mut() {
+                    walk(c, names_of, n);
+                }
+            }
+            Value::Array(a) => a.iter_mut().for_each(|c| walk(c, names_of, n)),
+            _ => {}
+        }
+    }
+    let mut n = 0;
+    for (_, d) in defs.iter_mut() {
+        walk(d, &names_of, &mut n);
+    }
+    n
 }
 
 /// Names of the definitions of a document.
